@@ -28,7 +28,8 @@ ASSUMPTIONS = [
     'changes to that model; likelihoods, predictive models and controllers are',
     'the OS schedules the worker processes of pints.ParallelEvaluator; the harness generates the batches and worker '
     'counts, it does not control interleavings inside the evaluator']
-REQUIRED = ['backend:analytic', 'backend:pkpd', 'mutation', 'grad_then_value', 'parallel', 'reduced_call', 'sample_call']
+REQUIRED = ['backend:analytic', 'backend:pkpd', 'mutation', 'grad_then_value', 'parallel', 'reduced_call', 'sample_call',
+            'inplace_updates']
 MUT_ANALYTIC = ['m_outputs', 'm_names', 'm_sens', 'em_names', 'em_refix']
 MUT_PKPD = ['m_regimen', 'm_admin', 'm_outputs', 'm_sens', 'em_names']
 
@@ -379,6 +380,28 @@ def check(case):
         last = (name, k)
         if case.fails:
             return
+
+    # The caller re-uses ONE argument buffer and updates it in place between evaluations (what
+    # optimisers and samplers do): every result must depend on the buffer's current values only.
+    with case.clause('inplace_argument_updates'):
+        case.labels.append('inplace_updates')
+        if s['backend'] == 'analytic':
+            targets = [('L1', fam.L1, twin.L1, s['ll_args'][0]), ('P1', fam.P1, twin.P1, s['ll_args'][0])]
+            if hasattr(fam, 'HP') and not mutated:
+                targets.append(('HP', fam.HP, twin.HP, s['hvecs'][0]))
+        else:
+            targets = [('L1', fam.L1, twin.L1, s['args'][0]), ('P1', fam.P1, twin.P1, s['args'][0])]
+        for label, obj, tw, x0 in targets:
+            buf = np.array(x0, dtype=float)
+            for rnd in range(3):
+                j = (s['seed'] + rnd) % len(buf)
+                got_v = obj(buf)
+                case.close(got_v, tw(buf.copy()), rtol=1e-12, what='%s(buffer) after %d in-place updates' % (label, rnd))
+                sc, g = obj.evaluateS1(buf)
+                sc2, g2 = tw.evaluateS1(buf.copy())
+                case.close(sc, sc2, rtol=1e-12, what='%s.evaluateS1 score after %d in-place updates' % (label, rnd))
+                case.close(g, g2, rtol=1e-12, what='%s.evaluateS1 gradient after %d in-place updates' % (label, rnd))
+                buf[j] *= 1.013          # in place: the same array object is passed again
 
     with case.clause('returned_results_stable'):
         for what, live, copies in returned:
